@@ -61,8 +61,8 @@ theorem bind_pair_eta {α β : Type} (x : M (α × β)) :
 
 /-! ### one level of the recursion -/
 
-theorem check_step (sf : Int → Int) (K : Nat) (hsf : FoldsTo sf K) (f : Nat) (m : List (Bytes × pathInfo)) (p : Bytes)
-    (d : Bool) (hf : 2 * p.length + K + 2 ≤ f) :
+theorem check_step_of (sf : Int → Int) (f : Nat) (m : List (Bytes × pathInfo)) (p : Bytes) (d : Bool)
+    (hst : Generated.Zip.strToFold sf f p = .ok (Zip.strToFold p)) :
     Generated.Zip.collisionChecker_check sf (f + 1) m p d =
       match Zip.ccStep Zip.strToFold (toCC m) p d with
       | (cc', some e) => .ok (some (errText e), ofCC cc')
@@ -71,7 +71,7 @@ theorem check_step (sf : Int → Int) (K : Nat) (hsf : FoldsTo sf K) (f : Nat) (
         else .ok (none, ofCC cc') := by
   rw [Generated.Zip.collisionChecker_check]
   unfold Zip.ccStep
-  rw [strToFold_eq sf K hsf f p hf, find_toCC]
+  rw [hst, find_toCC]
   simp only [GoRt.bind_ok]
   have hk : ∀ m' : List (Bytes × pathInfo),
       (if (!decide (GoRt.pathDir p = [46])) = true then
@@ -113,6 +113,16 @@ theorem check_step (sf : Int → Int) (K : Nat) (hsf : FoldsTo sf K) (f : Nat) (
     simp only [h3, Bool.false_eq_true, if_false, ofCC_toCC]
     exact hk _
 
+theorem check_step (sf : Int → Int) (K : Nat) (hsf : FoldsTo sf K) (f : Nat) (m : List (Bytes × pathInfo)) (p : Bytes)
+    (d : Bool) (hf : 2 * p.length + K + 2 ≤ f) :
+    Generated.Zip.collisionChecker_check sf (f + 1) m p d =
+      match Zip.ccStep Zip.strToFold (toCC m) p d with
+      | (cc', some e) => .ok (some (errText e), ofCC cc')
+      | (cc', none) =>
+        if PathClean.pathDir p != [46] then Generated.Zip.collisionChecker_check sf f (ofCC cc') (PathClean.pathDir p) true
+        else .ok (none, ofCC cc') :=
+  check_step_of sf f m p d (strToFold_eq sf K hsf f p hf)
+
 /-! ### the whole recursion -/
 
 /-- For every model fuel `n` with which the model's recursion ends (no `Reason.panic`), the generated function computes
@@ -146,6 +156,15 @@ theorem check_eq (sf : Int → Int) (K : Nat) (hsf : FoldsTo sf K) : ∀ (n fuel
           rw [this, toCC_ofCC]
         · simp only [if_neg hd]; rfl
 
+/-- one step of the checker reports one of the three collision reasons or nothing -/
+theorem ccStep_ne_panic (tf : Bytes → Bytes) (cc : Zip.CC) (p : Bytes) (d : Bool) :
+    (Zip.ccStep tf cc p d).2 ≠ some .panic := by
+  unfold Zip.ccStep
+  split
+  · repeat' split
+    all_goals simp
+  · simp
+
 /-- the model's own fuel criterion (`Proofs/ZipAChain.lean`): the chain of `path.Dir` reaches "." within `n` steps -/
 theorem ccCheck_ne_panic (tf : Bytes → Bytes) : ∀ (n : Nat) (cc : Zip.CC) (p : Bytes) (d : Bool),
     Proofs.ZipA.fuelOK n p → (Zip.ccCheck tf n cc p d).2 ≠ some .panic := by
@@ -160,14 +179,9 @@ theorem ccCheck_ne_panic (tf : Bytes → Bytes) : ∀ (n : Nat) (cc : Zip.CC) (p
     | mk cc' o =>
       cases o with
       | some e =>
-        simp only
-        unfold Zip.ccStep at hs
-        split at hs
-        · repeat' split at hs
-          all_goals first
-            | (simp at hs; done)
-            | (simp only [Prod.mk.injEq, Option.some.injEq] at hs; obtain ⟨_, rfl⟩ := hs; simp)
-        · simp at hs
+        have := ccStep_ne_panic tf cc p d
+        rw [hs] at this
+        exact this
       | none =>
         simp only
         by_cases hd : (PathClean.pathDir p != [46]) = true
